@@ -13,6 +13,7 @@ import (
 	"time"
 
 	"github.com/btcsuite/btcd/btcec/v2"
+	"github.com/lightninglabs/lightning-node-connect/hashmailrpc"
 	"github.com/lightninglabs/lightning-node-connect/mailbox"
 )
 
@@ -76,7 +77,23 @@ func kitPair(r *rng) (client, server net.Conn, cleanup func(), err error) {
 }
 
 func kitPairRelay(r *rng) (client, server net.Conn, cleanup func(), relay *fakeRelay, err error) {
-	relay = newFakeRelay()
+	return kitPairRelayOver(r, false)
+}
+
+// kitPairRelayOver: overGRPC puts a real gRPC client and server (bufconn) between the library and the relay's
+// mailboxes instead of handing the library the relay itself as its hashmail client.
+func kitPairRelayOver(r *rng, overGRPC bool) (client, server net.Conn, cleanup func(), relayOut *fakeRelay, err error) {
+	fr := newFakeRelay()
+	relayOut = fr
+	var relay hashmailrpc.HashMailClient = fr
+	stopGRPC := func() {}
+	if overGRPC {
+		gc, stop, gerr := fr.serveGRPC()
+		if gerr != nil {
+			return nil, nil, nil, fr, gerr
+		}
+		relay, stopGRPC = gc, stop
+	}
 	ctx, cancel := context.WithCancel(context.Background())
 	entropy := r.bytes(14)
 	cdC := mailbox.NewConnData(keyECDH(privFromRng(r)), nil, entropy, nil, nil, nil)
@@ -85,7 +102,8 @@ func kitPairRelay(r *rng) (client, server net.Conn, cleanup func(), relay *fakeR
 	cli, err2 := mailbox.VerifNewClient(ctx, "relay", cdC, relay)
 	if err1 != nil || err2 != nil {
 		cancel()
-		return nil, nil, nil, relay, fmt.Errorf("%v %v", err1, err2)
+		stopGRPC()
+		return nil, nil, nil, fr, fmt.Errorf("%v %v", err1, err2)
 	}
 	errc := make(chan error, 1)
 	go func() {
@@ -94,9 +112,9 @@ func kitPairRelay(r *rng) (client, server net.Conn, cleanup func(), relay *fakeR
 		errc <- e
 	}()
 	for k := 0; k < 400; k++ { // the server creates both mailboxes first; a client that comes early waits 2 s
-		relay.mu.Lock()
-		nb := relay.newBox
-		relay.mu.Unlock()
+		fr.mu.Lock()
+		nb := fr.newBox
+		fr.mu.Unlock()
 		if nb >= 2 {
 			break
 		}
@@ -120,8 +138,9 @@ func kitPairRelay(r *rng) (client, server net.Conn, cleanup func(), relay *fakeR
 		}
 		_ = srv.Close()
 		cancel()
+		stopGRPC()
 	}
-	return client, server, cleanup, relay, err
+	return client, server, cleanup, fr, err
 }
 
 // tcpPair returns two NoiseConn (the TCP variant) over memory.
